@@ -10,8 +10,8 @@
    stack layout, uninitialised bytes, libc/zlib internals): those are observed by the ASan/UBSan
    streams of checks/c06.py.  The handshake functions built on handshake_waitdns have a sequencing model
    (Handshake.v: which reply is taken, retries, what each step stores), tied to the C by scripted replies;
-   the two handshake theorems at the end are about that model.  handshake_login, the raw-UDP login and
-   client_handshake as a whole are not modelled. *)
+   the handshake theorems at the end are about that model, which covers every step, handshake_login,
+   handshake_raw_udp and client_handshake. *)
 From Coq Require Import List NArith ZArith Arith Bool.
 From Iodine Require Import Generated.SrcConsts Base Codec Hostname DnsName DnsMsg Client
      DecodeSafetyProofs DecodeSafetyMx DecodeSafetyAnswer DecodeTermination DecodeNul ClientStages
@@ -197,6 +197,7 @@ Example ex_mx_decodes :
   da_id r = Some 4660%N /\ da_name0 r = Some 112%N.
 Proof. vm_compute. repeat split. Qed.
 
+
 (* the hypothesis of C06_state_bounds is satisfiable (a framing "compressor" cut at 64K) *)
 Example ex_zc_bound : forall p, (length (firstn (N.to_nat 65536) (90%N :: p)) <= N.to_nat 65536)%nat.
 Proof. intros p. rewrite firstn_length. apply Nat.le_min_l. Qed.
@@ -213,7 +214,7 @@ Proof. vm_compute. split; [right; reflexivity|split; reflexivity]. Qed.
    unfitting, erroneous, of any length -- the step ends after at most step_bound queries (5 for the
    five-attempt steps incl. the login, 3 for the tests, 3 x 7 patterns for the upstream autodetect, 12 for the
    downstream autodetect, at most 27 for the query-type autodetect, 48 = 16 sizes x 3 attempts for the
-   fragment-size search, 141 for the whole DNS-mode client_handshake), and it consumes the script from the front only: what is left is a suffix of
+   fragment-size search, 7 for the raw-UDP attempt, 148 for the whole client_handshake), and it consumes the script from the front only: what is left is a suffix of
    what was there.  No reply sequence keeps a step going. *)
 Theorem C06_handshake_step_bounded :
   forall st s l,
@@ -231,11 +232,27 @@ Print Assumptions C06_handshake_step_bounded.
    repaired code compares the bytes of the fitting reply only; before the repair of D23 the C did not:
    corpus/C06 keeps the witness). *)
 Theorem C06_handshake_ignores_unfitting :
-  forall st s l, h_cid s <> 0%N ->
+  forall st s l, dns_only st = true -> h_cid s <> 0%N ->
     run_step st s (strip l) =
     (fst (fst (run_step st s l)), snd (fst (run_step st s l)), strip (snd (run_step st s l))).
-Proof. intros st s l H; exact (proj2 (step_ignores_inert st s l H)). Qed.
+Proof. intros st s l Hd H; exact (proj2 (step_ignores_inert st Hd s l H)). Qed.
 Print Assumptions C06_handshake_ignores_unfitting.
+
+(* C06_raw_login_sound: the raw-UDP half of handshake_raw_udp is outside the previous theorem on purpose.  It has no
+   notion of an unfitting reply: each of its four raw logins is followed by one select(), and whatever datagram arrives
+   is the answer to that attempt or is not.  What holds for every script: the loop reports success only if one of the
+   datagrams delivered carries login(seed - 1) after the raw header -- no sequence of other datagrams makes the client
+   switch to raw mode.  What does NOT hold is "ignored": ex_raw_login_junk shows four junk datagrams using up the four
+   attempts, after which a correct answer comes too late and the client stays in DNS mode (a degradation an off-path
+   sender can cause; the tunnel still comes up).  The whole handshake with the raw attempt is covered by
+   C06_handshake_step_bounded (148 queries). *)
+Theorem C06_raw_login_sound :
+  forall seed n s l,
+    fst (fst (attempts n (rawlogin_body seed) (ret false) s l)) = true ->
+    exists m d, In (ID m d) l /\
+      LoginGlue.cli_raw_accepts (h_pass s) seed (skipn 4 (firstn cap_full (subst m (h_cid s) (h_lastc s) d))) = true.
+Proof. exact raw_login_sound. Qed.
+Print Assumptions C06_raw_login_sound.
 
 (* non-vacuity: a well-formed NULL answer with DNS id 0 carrying "ZXDLEN" is inert; placed before the
    fitting 2-byte reply "BA" of a codec switch (the D23 witness) the model switches to Base64 with or
@@ -248,8 +265,19 @@ Definition ex_short : list N :=
    192;12;0;10;0;1;0;0;0;0;0;2;66;65]%N.
 Example ex_handshake_inert :
   inertb (ID 0%N ex_stale) = true /\
-  (let s0 := hs_init 1000%N 10%N 10%Z 5%Z true 32%N [] in
+  (let s0 := hs_init 1000%N 10%N 10%Z 5%Z true 32%N [] [] in
    let r := run_step (SSwitchCodec 6%N) s0 [ID 0%N ex_stale; ID 2%N ex_short; IT] in
    (h_up (snd (fst r)) = 1%N) /\ (h_q (snd (fst r)) = 1%N) /\ (snd r = [IT]) /\
    (run_step (SSwitchCodec 6%N) s0 [ID 2%N ex_short; IT] = r)).
 Proof. vm_compute. repeat split. Qed.
+
+(* four junk datagrams (DNS id 0, inert for every DNS step) use up the four raw logins: the correct answer that follows
+   is never looked at.  Without the junk the same answer is accepted. *)
+Definition ex_pass : list N := ([115; 101; 115; 97; 109; 101] ++ repeat 0 26)%N.
+Definition ex_raw_ok : list N := (firstn 3 src_raw_header ++ [16] ++ Login.raw_login_down ex_pass 4)%N.
+Example ex_raw_login_junk :
+  let s0 := hs_init 1000%N 10%N 3%Z 4%Z true 32%N [] ex_pass in
+  fst (fst (attempts 4 (rawlogin_body 4%Z) (ret false) s0 [ID 0%N ex_raw_ok])) = true /\
+  fst (fst (attempts 4 (rawlogin_body 4%Z) (ret false) s0
+              [ID 0%N ex_stale; ID 0%N ex_stale; ID 0%N ex_stale; ID 0%N ex_stale; ID 0%N ex_raw_ok])) = false.
+Proof. vm_compute. split; reflexivity. Qed.
